@@ -36,7 +36,10 @@ Errd(o, asp) == \E e \in RangeOf(o.errs) : e.asp = asp
 CheckMeta(c, o) ==
   IfBad(o.count # Count(c), <<"count", o.count>>)
   \cup IfBad(o.fields # c.fields, <<"fields", o.fields>>)
-  \cup IfBad(~(/\ c.dvMin \subseteq RangeOf(o.dvf) /\ RangeOf(o.dvf) \subseteq c.dvMax
+  \* the visitable doc-value fields: for a built segment the fields indexed with doc values; for a merged one
+  \* those of its inputs that had a dictionary for the field (ZapData: dvx)
+  \* (the output of a merge without survivors - see the known finding on its field table - may list any subset)
+  \cup IfBad(~(/\ IF c.prov = "merged" /\ Count(c) = 0 THEN RangeOf(o.dvf) \subseteq c.dvMax ELSE RangeOf(o.dvf) = c.dvx
                /\ Cardinality(RangeOf(o.dvf)) = Len(o.dvf)), <<"dvf", o.dvf>>)
 
 CheckDicts(c, o) ==
